@@ -29,6 +29,28 @@ Sh2 == {<<2, 3>>, <<3, 3>>, <<3, 2>>}
 Sh012 == {<<>>, <<3>>, <<2, 3>>}
 Pow2Mats == {A \in {[sh |-> <<2, 2>>, v |-> <<R(x), R(y), R(z), R(w)>>] : x \in {1, 2, -2, 4}, z \in {1, -1, 2}, y \in {-1, 0, 1, 3}, w \in {-1, 1, 2, 3}} : ExactLU(A)}
 
+\* ---- closeness tests: operand pairs around the tolerance band of rtol = 1/8 --------------------------------------
+\* wide: second = first * (1 + d) (integers: first + d) with d on both sides of the band, equal, on its edge and far
+\* away; narrow: every pair close in the order (first, second), some only in that order (allclose)
+CA(dt, w) == IF dt = "i" THEN (IF w = "wide" THEN <<R(15), R(-15), R(17), R(8), R(0), R(16), R(3), R(-9)>>
+                                              ELSE <<R(15), R(-15), R(17), R(16), R(-23), R(31), R(24), R(-33)>>)
+             ELSE (IF w = "wide" THEN <<R(1), R(-1), R(2), <<-3, 2>>, R(0), <<5, 4>>, R(3), <<1, 2>>>>
+                                 ELSE <<R(1), R(-1), R(2), <<-3, 2>>, <<5, 4>>, R(3), <<1, 2>>, R(-2)>>)
+CD(dt, w) == IF dt = "i" THEN (IF w = "wide" THEN <<R(0), R(2), R(-2), R(1), R(-1), R(3), R(2)>> ELSE <<R(0), R(2), R(1), R(0), R(2), R(1), R(2)>>)
+             ELSE (IF w = "wide" THEN <<R(0), <<9, 64>>, <<-15, 128>>, <<1, 4>>, <<1, 8>>, <<-1, 64>>, <<9, 64>>>>
+                                 ELSE <<R(0), <<9, 64>>, <<1, 8>>, <<-1, 64>>, <<9, 64>>, R(0), <<1, 8>>>>)
+CmpA(dt, s, sh, w) == [sh |-> sh, v |-> [k \in 1..IProd(sh) |-> CA(dt, w)[((s + k * 3) % 8) + 1]]]
+CmpB(dt, s, X, w) == [sh |-> X.sh, v |-> [k \in 1..Len(X.v) |->
+     LET x == X.v[k] d == CD(dt, w)[((s * 2 + k) % 7) + 1] IN
+     IF dt = "i" THEN RAdd(x, IF x[1] < 0 THEN RNeg(d) ELSE d) ELSE IF x = RZero THEN RDivS(d, R(4)) ELSE RMul(x, RAdd(ROne, d))]]
+\* <<first, second>> operand pairs: equal shapes in both orders, and an array against a 0-d operand in both orders
+CmpPairs(dt, s, w) == UNION {LET X == CmpA(dt, s, sh, w) Y == CmpB(dt, s, X, w) IN
+                              {<<X, Y>>, <<Y, X>>} \cup (IF Len(sh) = 0 THEN {} ELSE {<<X, A0(Y.v[2])>>, <<A0(Y.v[2]), X>>})
+                            : sh \in {<<>>, <<3>>, <<4>>, <<2, 3>>}}
+\* who carries units: q quantity / b bare ndarray / l Python list or number / d dimensionless unyt_array
+Carriers == {<<"q", "q">>, <<"q", "b">>, <<"b", "q">>, <<"q", "l">>, <<"l", "q">>, <<"q", "d">>, <<"d", "q">>}
+Tols == {<<"tol", <<1, 8, 0, 1>>>>, <<"tol", <<1, 8, 1, 64>>>>, <<"tol", <<0, 1, 1, 4>>>>, <<"tolkw", <<1, 8, 0, 1>>>>}
+
 VARIABLE c
 Init == c = <<>>
 K(fn, t, a, ia, p, s, dt) == [layer |-> "S", fn |-> fn, t |-> t, a |-> a, ia |-> ia, p |-> p, s |-> s, dt |-> dt]
@@ -36,12 +58,14 @@ Full(k) ==
   LET exp == EvalFn(k.fn, k)
       texp == EvalTarget(k.fn, k)
       own == Own(k.fn, Fixes)
-      m == EvalFn(own, k) IN
+      m == EvalHandler(k.fn, k, Fixes) IN
   [layer |-> "S", fn |-> k.fn, t |-> k.t, a |-> k.a, ia |-> k.ia, p |-> k.p, s |-> k.s, dt |-> k.dt,
    exp |-> exp, texp |-> texp, kinds |-> [j \in 1..Len(exp) |-> KindOf(k.fn, k.dt, j)],
    m |-> m, fwd |-> IF k.fn \in {"max", "min", "mean", "sum", "cumsum", "sort", "argsort", "transpose", "reshape", "ravel", "flip", "fliplr", "flipud", "roll", "repeat", "tile", "rot90", "delete", "append", "unique", "setxor1d", "digitize"} THEN ""
            ELSE (IF own \in {"det", "inv", "solve"} THEN "np.linalg." ELSE "np.") \o own,   \* default-path / method-backed functions: no handler frame
-   mfail |-> m # exp]
+   mfail |-> m # exp,
+   \* closeness tests: would handing the operands to NumPy in the other order change the answer?
+   sw |-> k.fn \in {"isclose", "allclose"} /\ SwapSensitive(k.fn, k.a, k.p)]
 
 Two(dt, s, sh) == <<Arr(dt, s, sh), Arr(dt, s + 5, sh)>>
 Three(dt, s, sh) == <<Arr(dt, s, sh), Arr(dt, s + 5, sh), Arr(dt, s + 9, sh)>>
@@ -98,6 +122,13 @@ Next ==
            \/ dt = "f" /\ s = Seed1 /\ \E A \in Pow2Mats : c' = Full(K("det", "pos", <<A>>, <<>>, <<>>, <<>>, dt))
            \/ dt = "f" /\ s = Seed1 /\ \E A \in Pow2Mats : c' = Full(K("inv", "pos", <<A>>, <<>>, <<>>, <<>>, dt))
            \/ dt = "f" /\ \E A \in Pow2Mats : A.v[2] = RZero /\ c' = Full(K("solve", "vec", <<A, Arr("i", s, <<2>>)>>, <<>>, <<>>, <<>>, dt))
+     \/ /\ "compare" \in Fams
+        /\ \/ \E fn \in {"isclose", "allclose"}, uc \in Carriers, tl \in Tols :
+              \E pr \in CmpPairs(dt, s, IF fn = "allclose" THEN "narrow" ELSE "wide") :
+                 c' = Full(K(fn, tl[1], pr, <<>>, tl[2], uc, dt))
+           \* equality tests: operands of one unit (different units are different quantities: not C06's concern)
+           \/ \E fn \in {"array_equal", "array_equiv"}, w \in {"wide", "narrow"} : \E pr \in CmpPairs(dt, s, w) \cup {<<CmpA(dt, s, <<3>>, w), CmpA(dt, s, <<3>>, w)>>} :
+                 c' = Full(K(fn, "pos", pr, <<>>, <<0, 1, 0, 1>>, <<"q", "q">>, dt))
      \/ /\ "order" \in Fams
         /\ \/ \E sh \in Sh1, fn \in {"union1d", "intersect1d", "setdiff1d", "setxor1d", "isin"} : c' = Full(K(fn, "pos", <<Arr("i", s, sh), Arr("i", s + 5, <<3>>)>>, <<>>, <<>>, <<>>, "i"))
            \/ \E sh \in Sh1 : c' = Full(K("unique", "pos", <<Arr(dt, s, sh)>>, <<>>, <<>>, <<>>, dt))
